@@ -66,10 +66,13 @@ def run_family(args):
     if res.rc != 0 or "Error:" in tail:
         return {"fam": fam, "error": tail[-2500:]}
     graphs, pairs, mirrors = {}, [], []
+    parts = {}
     seenp = set()
     for pre, o in res.lines:
         if pre == "G":
             graphs[o["i"]] = o["g"]
+            if o.get("part") is not None:
+                parts[o["i"]] = o["part"]
         elif pre == "P":
             if (o["i"], o["j"]) not in seenp:
                 seenp.add((o["i"], o["j"]))
@@ -107,6 +110,30 @@ def run_family(args):
         except Exception as e:
             fail({"C09"}, f"build|{fam}|{type(e).__name__}", "family member cannot be built through the public API",
                  {"g": gj, "error": repr(e)})
+    # conformance of the real colour refinement with the design model SMGRefine: same partition of the atoms
+    n_part = 0
+    if parts and "hash" in need:
+        from stereomolgraph.algorithms.color_refine import color_refine_mg, color_refine_crg, label_hash
+        for i, want in parts.items():
+            if i not in objA:
+                continue
+            x = objA[i]
+            n_part += 1
+            try:
+                if kind == "MG":
+                    cols = color_refine_mg(x, atom_labels=label_hash(x, atom_labels=("atom_type",)))
+                else:
+                    cols = color_refine_crg(x, atom_labels=label_hash(x, atom_labels=("atom_type", "reaction")))
+                byc = {}
+                for a, c in zip(x.atoms, cols):
+                    byc.setdefault(int(c), []).append(idA.b(a))
+                got = sorted(sorted(v) for v in byc.values())
+            except Exception as e:
+                got = f"raise:{type(e).__name__}"
+            if got != sorted(sorted(c) for c in want):
+                fail({"C16", "C02"}, f"refinement-partition-differs-from-model|{fam}|{kind}",
+                     "the partition of the atoms induced by the real colour refinement differs from the 1-WL design model "
+                     "(SMGRefine, own colour kept)", {"g": graphs[i], "model": want, "real": got})
     stereo = kind in ("SMG", "SCRG")
     changes = kind == "SCRG"
     reaction = kind in ("CRG", "SCRG")
@@ -262,7 +289,7 @@ def run_family(args):
                  f"g == g.enantiomer() is {same} but a bijection onto the mirror image "
                  f"{'exists' if m['achiral'] else 'does not exist'}", det)
     return {"fam": fam, "kind": kind, "states": res.distinct, "generated": res.generated, "graphs": len(graphs),
-            "pairs": n_pairs, "pairs_iso": n_iso, "enumerations": n_enum, "sig_different_pairs": n_sigdiff, "single_unit_pairs": n_su, "label_enumerations": n_lab, "symmetry_numbers": n_sym,
+            "pairs": n_pairs, "pairs_iso": n_iso, "enumerations": n_enum, "sig_different_pairs": n_sigdiff, "single_unit_pairs": n_su, "label_enumerations": n_lab, "symmetry_numbers": n_sym, "refinement_partitions": n_part,
             "mirrors": n_mirror, "fails": fails, "samples": samples, "wall": res.wall}
 
 
@@ -298,7 +325,7 @@ def run_families(tier, prop):
 def collect(prop, tier, rep: Reporter, extra=None):
     results = run_families(tier, prop)
     tot = {"states": 0, "generated": 0, "graphs": 0, "pairs": 0, "pairs_iso": 0, "enumerations": 0,
-           "sig_different_pairs": 0, "single_unit_pairs": 0, "label_enumerations": 0, "symmetry_numbers": 0, "mirrors": 0}
+           "sig_different_pairs": 0, "single_unit_pairs": 0, "label_enumerations": 0, "symmetry_numbers": 0, "refinement_partitions": 0, "mirrors": 0}
     per = {}
     samples = []
     for r in results:
@@ -307,7 +334,7 @@ def collect(prop, tier, rep: Reporter, extra=None):
         for k in tot:
             tot[k] += r[k]
         per[r["fam"]] = {k: r[k] for k in ("kind", "graphs", "pairs", "pairs_iso", "enumerations",
-                                           "sig_different_pairs", "single_unit_pairs", "label_enumerations", "symmetry_numbers", "mirrors", "states")}
+                                           "sig_different_pairs", "single_unit_pairs", "label_enumerations", "symmetry_numbers", "refinement_partitions", "mirrors", "states")}
         samples += r["samples"][:1]
         for f in r["fails"]:
             if prop in f["props"]:
